@@ -488,6 +488,12 @@ def c08_compare(rq, impl, model):
     bad = None
     if st == "st=panic":
         bad = "compile panicked"
+    after = after.split(" extra=")[0]
+    extra = impl.split(" extra=", 1)[1] if " extra=" in impl else "0"
+    if st == "st=panic":
+        bad = "compile panicked"
+    elif extra != "0":
+        bad = "compile left %s file(s) behind next to the destination" % extra
     elif st != "st=0" and after != before:
         bad = "compile failed but the destination changed: before %s after %s" % (before, after)
     elif st == "st=0" and not after.startswith("file:"):
@@ -499,6 +505,10 @@ def c08_compare(rq, impl, model):
 
 PROPS["C08"] = {
     "theorems": [
+        "Lace.C08.compile_all_or_nothing_faults",
+        "Lace.C08.writeAllOrNothing_spec",
+        "Lace.C08.compile_write_fails_at",
+        "Lace.C08.in_place_truncates",
         "Lace.C08.compile_all_or_nothing",
         "Lace.C08.compile_fail_at",
         "Lace.C08.compile_unwritable",
@@ -511,11 +521,17 @@ PROPS["C08"] = {
     "group": lambda d: d["impl"].split(" ")[0],
     "rule": ("process mode: `lace compile src dest` with an emission failure (out-of-range label reference) injected at "
              "every statement position k of n (and no failure), and other invalid sources; destination pre-existing "
-             "with known random contents, absent, /dev/full, or in a non-existent directory; observed: exit status "
-             "and the destination's bytes afterwards, compared with the abstract-file-system model of the Compile arm "
-             "driven by the assembler model, and checked directly against the all-or-nothing predicate."),
-    "trusted": ["real file-system semantics beyond: create fails in a missing directory, /dev/full accepts open but no data"],
-    "assumptions": ["PARTIAL: a write failing half-way on a regular file (disk full) is OS behaviour outside the file-system model"],
+             "with known random contents, absent, /dev/full, or in a non-existent directory; in two cases out of five "
+             "under a file size limit (RLIMIT_FSIZE with SIGXFSZ ignored: a write to a regular file fails after exactly "
+             "that many bytes, as on a full disk), plus an exhaustive sweep of the limit over every byte position 0..8 of "
+             "a 6-byte object file x 3 destinations; observed: exit status, the destination's bytes afterwards and the "
+             "number of files left behind next to it, compared with the file-system model of the Compile arm (destination, "
+             "temporary sibling, fault parameter) driven by the assembler model, and checked directly against the "
+             "all-or-nothing predicate."),
+    "trusted": ["real file-system semantics beyond: create fails in a missing directory, /dev/full accepts open but no data, "
+                "a size limit makes write_all fail after a short write, rename is atomic"],
+    "assumptions": ["outside the model: a crash (SIGKILL, power loss) between two file operations; a failing rename is in the model "
+                    "(theorem) but not injected on the implementation"],
 }
 
 
